@@ -52,6 +52,16 @@
  *                             left out of the "unchanged" comparison, but it is still walked, must still
  *                             be valid and is released by the caller)
  *
+ * the tokener's temporary "C" numeric locale: this driver carries its own copy of json_tokener.c (included at the
+ * end of the file, allocator renamed as in the library build) in which duplocale / newlocale / freelocale are
+ * wrappers: duplocale and newlocale are allocation requests of the workload like any other (counted in N, failed at
+ * their index k, refused by 'A'), and a locale object obtained and not released counts as a leaked block — in every
+ * locale, also where glibc hands out its static "C" object.
+ *   lc<C|G|T>                 the locale the calling thread is under: "C"; the comma-decimal locale xx_COMMA set
+ *                             globally (setlocale); xx_COMMA set for the thread (uselocale).  From then on the state
+ *                             dump shows the thread's decimal point (a call must restore the caller's locale on
+ *                             every path).  Reset to "C" at the end of each run.
+ *
  * direct use of the print-buffer API on one driver-held buffer (printbuf.h is public):
  *   Pn                        printbuf_new            Pf   printbuf_free        Pr   printbuf_reset
  *   Pa<hex>                   printbuf_memappend(pb, bytes, n)
@@ -80,8 +90,10 @@
  *                  the registers differently
  *     owned  u  all registers (the container and the child after a failed add, the source of a
  *               copy, …) dump as before operation i;  c  something changed;  -  class N
- *     leak   live allocations above the baseline after every register was released
+ *     leak   live allocations above the baseline after every register was released (locale objects included:
+ *            l<n> says how many of them are locale objects)
  *   A crash (use after free, double free, NULL dereference) is caught by the framework. */
+// EXCLUDE: json_tokener.c
 #include "common.h"
 #include "jvtext.h"
 #include "json_patch.h"
@@ -165,6 +177,63 @@ static void dumpf(FILE *f, struct json_object *o)
 	}
 }
 
+/* ---- locales ---- */
+#include <locale.h>
+static long loc_live;          /* locale objects the library obtained and has not released */
+static locale_t comma_loc;
+static int loc_state;          /* 0 not tried, 1 ok, -1 unavailable */
+static int loc_used;           /* an lc operation ran: the thread's decimal point is part of the state */
+static void loc_setup(void)
+{
+	if (loc_state) return;
+	loc_state = -1;
+	if (!getenv("LOCPATH")) {
+		char exe[4096]; ssize_t n = readlink("/proc/self/exe", exe, sizeof exe - 32);
+		int cut = 0;
+		if (n <= 0) return;
+		exe[n] = 0;
+		while (n > 0 && cut < 2) { if (exe[--n] == '/') cut++; }
+		strcpy(exe + n, "/locale");
+		setenv("LOCPATH", exe, 1);
+	}
+	if (!setlocale(LC_ALL, "xx_COMMA")) return;
+	if (strcmp(localeconv()->decimal_point, ",") != 0) { setlocale(LC_ALL, "C"); return; }
+	setlocale(LC_ALL, "C");
+	comma_loc = (newlocale)(LC_ALL_MASK, "xx_COMMA", (locale_t)0);
+	if (comma_loc) loc_state = 1;
+}
+/* glibc itself keeps some bytes per newlocale(mask, name, base) call once LOCPATH is set (the search path it
+ * builds is not released); that is measured here, per locale mode, and discounted from the heap balance of a run */
+static long newlocale_keeps, loc_new_calls;
+static long heap_now(void);
+static void loc_calibrate(void)
+{
+	long a, d1, d2; int i;
+	for (i = 0; i < 2; i++) {
+		locale_t old = (uselocale)((locale_t)0), d, n;
+		a = heap_now();
+		d = (duplocale)(old);
+		n = d ? (newlocale)(LC_NUMERIC_MASK, "C", d) : (locale_t)0;
+		if (n) (freelocale)(n); else if (d) (freelocale)(d);
+		if (i == 0) d1 = heap_now() - a; else d2 = heap_now() - a;
+	}
+	newlocale_keeps = (d1 == d2) ? d2 : 0;
+}
+static long loc_driver_bytes;   /* what the driver's own locale switching (and its calibration) left allocated */
+static void loc_mode(char m)
+{
+	long h0 = heap_now();
+	loc_setup();
+	(uselocale)(LC_GLOBAL_LOCALE);
+	setlocale(LC_ALL, "C");
+	if (loc_state == 1) {
+		if (m == 'G') setlocale(LC_ALL, "xx_COMMA");
+		else if (m == 'T') (uselocale)(comma_loc);
+	}
+	loc_calibrate();
+	loc_driver_bytes += heap_now() - h0;
+}
+
 static int dump_allocated;     /* set when a dump went through the controlled allocator */
 static int fmt_used;           /* a df operation ran: the double format is part of the state */
 static int mask_reg = -1;     /* this register is walked but printed as '~' */
@@ -188,6 +257,11 @@ static char *state_dump(void)
 		fputc(';', f);
 	}
 	if (xa_count != c0) dump_allocated = 1;
+	if (loc_used) {
+		char num[32];
+		snprintf(num, sizeof num, "%.1f", 1.5);          /* the decimal point the calling thread sees */
+		fprintf(f, "loc=%s;", num);
+	}
 	if (fmt_used) {
 		/* the EFFECTIVE format of this thread: how a fractional and a whole-number double serialize */
 		struct json_object *probe = json_object_new_double(1.5), *whole = json_object_new_double(2.0);
@@ -318,6 +392,11 @@ static char *exec_op(char *op, int *isfail, int *bad)
 	char *a[6]; int na, r, c, d;
 	*isfail = 0; *bad = 0;
 	res_open();
+	if (op[0] == 'l' && op[1] == 'c' && (op[2] == 'C' || op[2] == 'G' || op[2] == 'T') && !op[3]) {
+		loc_mode(op[2]);
+		fprintf(res_f, loc_state == 1 ? "ok" : "nolocale");
+		return res_close();
+	}
 	if (op[0] == 'P') {
 		int rc = 0;
 		if (op[1] == 'n') {
@@ -589,18 +668,19 @@ static int has_op(const char *list, const char *two)
 static char *base_res[MAXOPS], *base_state[MAXOPS], *base_state_m[MAXOPS];
 static int nbase;
 
-struct outcome { char cls; int opi; char owned; long leak; long n; int bad; int fired; long hidden; };
+struct outcome { char cls; int opi; char owned; long leak; long n; int bad; int fired; long hidden; long locs; };
 
 /* run setup + test once; k == -1: the fault-free reference run (records base_*);
  * k == -2: a second fault-free run, compared and accounted like a fault run */
 static struct outcome run_workload(const char *setup, const char *test, long k, long j2, size_t limit)
 {
-	struct outcome oc = {'N', -1, '-', 0, 0, 0, 0, 0};
+	struct outcome oc = {'N', -1, '-', 0, 0, 0, 0, 0, 0};
 	long heap0 = heap_now();
 	char *s = strdup(setup), *t = strdup(test), *save = NULL, *op;
-	long live0, c0; int i;
+	long live0, c0, loc0 = loc_live, newc0 = loc_new_calls, keeps = 0, drv0 = loc_driver_bytes; int i;
 	xa_reset();
 	live0 = xa_live;
+	loc_used = has_op(setup, "lc") || has_op(test, "lc");
 	memset(regs, 0, sizeof regs);
 	narena = 0; second_j = -1; rearmed = 0;
 	fmt_used = has_op(setup, "df") || has_op(test, "df");
@@ -656,9 +736,12 @@ static struct outcome run_workload(const char *setup, const char *test, long k, 
 		json_c_set_serialization_double_format(NULL, JSON_C_OPTION_THREAD);
 	}
 	if (pbs) { printbuf_free(pbs); pbs = NULL; }
-	oc.leak = xa_live - live0;
+	keeps = (loc_new_calls - newc0) * newlocale_keeps;      /* calls made under the workload's locale mode */
+	if (loc_used) loc_mode('C');
+	oc.leak = (xa_live - live0) + (loc_live - loc0);
+	oc.locs = loc_live - loc0;
 	(free)(s); (free)(t);
-	if (k != -1) oc.hidden = heap_now() - heap0;
+	if (k != -1) oc.hidden = heap_now() - heap0 - keeps - (loc_driver_bytes - drv0);
 	return oc;
 }
 
@@ -677,7 +760,8 @@ static void print_tok(const char *label, struct outcome oc, int *first)
 	*first = 0;
 	if (oc.cls == 'N') printf("%s:N:-%ld", label, oc.leak);
 	else printf("%s:%c%d:%c%ld", label, oc.cls, oc.opi, oc.owned, oc.leak);
-	if (oc.leak == 0 && oc.hidden != 0) printf("h%ld", oc.hidden);
+	if (oc.locs != 0) printf("l%ld", oc.locs);          /* of which locale objects */
+	else if (oc.leak == 0 && oc.hidden != 0) printf("h%ld", oc.hidden);
 }
 
 void run_case(char *rest)
@@ -689,6 +773,8 @@ void run_case(char *rest)
 	test = strtok_r(NULL, " ", &save);
 	if (!ks || !setup || !test) { printf("BADLINE"); return; }
 	dump_allocated = 0; nbase = 0;
+	loc_setup();
+	loc_calibrate();
 	b = run_workload(setup, test, -1, -1, 0);
 	if (b.bad) { printf("BADSCRIPT"); goto done; }
 	printf("n=%ld base=", b.n);
@@ -725,3 +811,43 @@ done:
 	for (i = 0; i < nbase; i++) { (free)(base_res[i]); (free)(base_state[i]); (free)(base_state_m[i]); base_state_m[i] = NULL; }
 	nbase = 0;
 }
+
+/* ---- this driver's copy of the tokener: locale objects are requests and blocks of the workload ---- */
+static int loc_deny(void)
+{
+	long k = xa_count++;
+	if ((xa_fail_at >= 0 && k == xa_fail_at) || xa_limit) { xa_failed = 1; errno = ENOMEM; return 1; }
+	return 0;
+}
+static locale_t oom_duplocale(locale_t l)
+{
+	locale_t r;
+	if (loc_deny()) return (locale_t)0;
+	r = duplocale(l);
+	if (r) loc_live++;
+	return r;
+}
+static locale_t oom_newlocale(int mask, const char *name, locale_t base)
+{
+	locale_t r;
+	if (loc_deny()) return (locale_t)0;          /* the base object stays the caller's */
+	r = newlocale(mask, name, base);
+	if (r) loc_new_calls++;
+	if (r && !base) loc_live++;                  /* with a base, the base object is absorbed into the result */
+	return r;
+}
+static void oom_freelocale(locale_t l)
+{
+	if (l) loc_live--;
+	freelocale(l);
+}
+void *xmalloc(size_t); void *xcalloc(size_t, size_t); void *xrealloc(void *, size_t); char *xstrdup(const char *); void xfree(void *);
+#define duplocale oom_duplocale
+#define newlocale oom_newlocale
+#define freelocale oom_freelocale
+#define malloc xmalloc
+#define calloc xcalloc
+#define realloc xrealloc
+#define strdup xstrdup
+#define free xfree
+#include "json_tokener.c"
